@@ -301,6 +301,85 @@ fn check_value(v: &MapVal, obs: &mut Obs) {
         if fields(&back) != expected {
           obs.fail("round_trip_value", format!("{name}: {:?} after the round trip, expected {:?}; json {json:?}", fields(&back), expected));
         }
+        derived(&back, &expected, name, obs);
+      }
+    }
+  }
+  derived(&m, v, "constructed", obs);
+  // serialising consumed clones: the value itself still says the same
+  if fields(&m) != *v || m.clone().to_json().ok().as_deref() != Some(json.as_str()) {
+    obs.fail("value_changed_by_serialising", format!("{:?} after to_json / to_writer, was {:?}", fields(&m), v));
+  }
+}
+
+/// Values derived from `m` by clone() and one setter each (they share every
+/// untouched table with `m`): the serialised document must show exactly the
+/// changed field, and `m` must stay as it was.
+fn derived(m: &SourceMap, base: &MapVal, origin: &str, obs: &mut Obs) {
+  let variants: Vec<(&str, Box<dyn Fn(&mut SourceMap, &mut MapVal)>)> = vec![
+    ("set_file", Box::new(|m, v| {
+      let f = if v.file.as_deref() == Some("x.js") { None } else { Some("x.js".to_string()) };
+      m.set_file(f.clone());
+      v.file = f;
+    })),
+    ("set_source_root", Box::new(|m, v| {
+      let f = if v.source_root.is_some() { None } else { Some("root/".to_string()) };
+      m.set_source_root(f.clone());
+      v.source_root = f;
+    })),
+    ("set_debug_id", Box::new(|m, v| {
+      let f = if v.debug_id.is_some() { None } else { Some("0123-ab".to_string()) };
+      m.set_debug_id(f.clone());
+      v.debug_id = f;
+    })),
+    ("set_sources", Box::new(|m, v| {
+      let mut s = v.sources.clone();
+      s.push("added\u{2028}.js".to_string());
+      m.set_sources(s.clone());
+      v.sources = s;
+    })),
+    ("set_names", Box::new(|m, v| {
+      let s = vec!["only".to_string()];
+      m.set_names(s.clone());
+      v.names = s;
+    })),
+    ("set_sources_content", Box::new(|m, v| {
+      let s = vec!["c\"\n".to_string()];
+      m.set_sources_content(s.clone());
+      v.contents = s;
+    })),
+  ];
+  for (what, f) in variants {
+    let mut d = m.clone();
+    let mut exp = base.clone();
+    f(&mut d, &mut exp);
+    obs.count("derived_values", 1);
+    if fields(&d) != exp {
+      obs.fail("derived_value_fields", format!("{origin} + clone + {what}: {:?}, expected {:?}", fields(&d), exp));
+      continue;
+    }
+    if fields(m) != *base {
+      obs.fail("setter_on_clone_changed_the_original", format!("{origin} + clone + {what}: original now {:?}, was {:?}", fields(m), base));
+    }
+    match d.clone().to_json() {
+      Err(e) => obs.fail("to_json_error", format!("{e} for {exp:?}")),
+      Ok(j) => {
+        let mut w = Vec::new();
+        if d.clone().to_writer(&mut w).is_err() || w != j.as_bytes() {
+          obs.fail("to_writer_differs", format!("{origin} + clone + {what}: to_writer {:?} vs to_json {j:?}", String::from_utf8_lossy(&w)));
+        }
+        match SourceMap::from_json(&j) {
+          Err(e) => obs.fail("round_trip_parse_error", format!("{origin} + clone + {what}: {j:?}: {e}")),
+          Ok(back) => {
+            let mut e2 = exp.clone();
+            if all_empty(&e2.contents) {
+              e2.contents = vec![];
+            }
+            if fields(&back) != e2 {
+              obs.fail("round_trip_value", format!("{origin} + clone + {what}: {:?} after the round trip, expected {:?}; json {j:?}", fields(&back), e2));
+            }
+          }
+        }
       }
     }
   }
